@@ -372,7 +372,7 @@ pub fn run_enum(name: &str, args: &[String], w: &mut dyn Write) -> bool {
             // stepping: observations for the target year
             for n in [1i64, -1, 13, -13, 5, -30] {
               let tot = p[0] * size + i + n;
-              let ty = if tot >= 0 { tot / size } else { -((-tot) / size) };
+              let ty = tot.div_euclid(size); // LunarFestival::next carries the year with floor division (after the C11 repair)
               writeln!(w, "lfest.next {} {} {} {} {}", y, i, n, oi, obs_for_idx(ty)).unwrap();
             }
           }
